@@ -75,7 +75,7 @@ def compare(node, d, path="decl"):
         if dec.func is not None:
             return "%s: spurious function-pointer declarator" % path
     arr = [todict.print_node(a) for a in node.array]
-    if arr != [str(a) for a in d.arrays]:
+    if [a.replace(" ", "") for a in arr] != [str(a).replace(" ", "") for a in d.arrays]:
         return "%s: array extents %r, written %r" % (path, arr, d.arrays)
     if d.params is None:
         if node.params is not None:
@@ -243,6 +243,48 @@ def compile_batch(args):
     return n, bad
 
 
+TEMPLATE_SHAPES = ["T %s", "const T %s", "T * %s", "const T * %s", "T & %s", "const T & %s", "T * const %s", "volatile T * %s", "T * * %s",
+                   "const T * const * %s", "T const * %s", "const T * & %s", "T %s[3]", "const T %s[2][3]"]
+TEMPLATE_ARGS = ["int", "double", "long", "unsigned int", "Cls", "std::string"]
+
+
+def template_shard(args):
+    """Declarations over a template parameter T, instantiated: the recorded type is the one a compiler derives by substitution."""
+    from shroud import ast, declast, typemap
+
+    typemap.initialize()
+    lib = make_namespace()
+    out = []
+    for shape in TEMPLATE_SHAPES:
+        for site in ("param", "result"):
+            if site == "result" and ("[" in shape):
+                continue
+            for targ in TEMPLATE_ARGS:
+                text = ("template<typename T> void f(%s, int n)" % (shape % "a")) if site == "param" else ("template<typename T> %s(int n)" % (shape % "f"))
+                rec = {"text": "%s  with <%s>" % (text, targ), "kind": "instantiate", "must": "must", "err": None, "status": "ok", "cxx": None, "c": None}
+                try:
+                    t = declast.check_decl(text, namespace=lib)
+                    ta = ast.TemplateArgument("<%s>" % targ)
+                    ta.parse_instantiation(namespace=lib)
+                    node = (t.decl.params[0] if site == "param" else t.decl).instantiate(ta.asts[0])
+                    native = targ not in ("Cls", "std::string")
+                    if site == "param":
+                        rec["cxx"] = node.gen_arg_as_cxx(name="r_X")
+                        rec["decl"] = node.gen_decl(name="r_X", attrs=False)
+                        if native:
+                            rec["c"] = node.gen_arg_as_c(name="r_X")
+                        rec["orig"] = (shape % "o_X").replace("T", targ)
+                    else:
+                        rec["cxx"] = node.gen_arg_as_cxx(name="r_X", params=None) + "(int n)"
+                        rec["decl"] = rec["cxx"]
+                        rec["orig"] = (shape % "o_X").replace("T", targ) + "(int n)"
+                    rec["cexp"] = rec["orig"].replace("&", "*")
+                except Exception as e:  # noqa
+                    rec["err"] = "instantiation raised %s: %s" % (type(e).__name__, str(e)[:200])
+                out.append(rec)
+    return out
+
+
 def run(ctx):
     level = 2 if ctx.tier == "quick" else 3
     W = ctx.workers
@@ -250,6 +292,7 @@ def run(ctx):
     recs = []
     for part in isolate.pmap(parse_shard, [(level, s, nsh) for s in range(nsh)], W):
         recs.extend(part)
+    recs.extend(isolate.call_in_child(template_shard, ((),), timeout=120).value)
     ctx.count(states=len(recs), transitions=len(recs), validated=len(recs))
     kinds = {}
     for i, r in enumerate(recs):
